@@ -8,7 +8,7 @@
 
    Not modelled: message profiles (the `message_profile` / `reference` arguments), report_file,
    force_validation, the time stamp the constructor writes into its own MSH (that MSH is replaced
-   by the parsed children).  The process defaults enter as parameters: `dflt` is
+   by the parsed children).  The process defaults are passed in explicitly: `dflt` is
    get_default_version(); the validation level is always given explicitly. *)
 From Coq Require Import List Bool ZArith NArith Init.Byte.
 From HL7 Require Import Lib.Str Model.Ec Model.Result Model.Header Model.Ref Model.Tree Model.Parser
